@@ -59,7 +59,7 @@ def pool_map(jobs):
 
 # ---------------------------------------------------------------- classification of a failure
 def has_ninf(c):
-    return bool(np.isneginf(Z.case_arrays(c)[0].astype(np.float64)).any())
+    return bool(np.isneginf(Z.case_arrays(c)[0].astype(np.float64)).any()) and not Z.source_facts().get("stripIndices")
 
 
 def classify_stats(c, dask_tbl, np_tbl):
@@ -72,13 +72,14 @@ def classify_stats(c, dask_tbl, np_tbl):
                 same = (x != x and y != y) or x == y or (s not in Z.EXACT_STATS and Z.close(x, y, rel=1e-5, abs_=1e-6))
                 if not same and not (y != y and x == 0.0 and s in ("sum", "count")):
                     only_empty = False
-        if only_empty:
+        if only_empty and Z.source_facts().get("comb", {}).get("sum") != "nansumNaN":
             return "dask-stats:empty-zone-sum-count-zero"
     return "dask-stats:table"
 
 
 def classify_xtab(c, zch, vch):
-    unaligned = "layers" not in c and [list(x) for x in zch] != [list(x) for x in vch[-2:]]
+    unaligned = "layers" not in c and [list(x) for x in zch] != [list(x) for x in vch[-2:]] \
+        and not Z.source_facts().get("crosstab2dAligns")
     if has_ninf(c):
         return "dask-crosstab:neg-inf-zone-cells" + ("+values-chunks-not-aligned" if unaligned else "-shift-slices")
     if unaligned:
@@ -219,7 +220,7 @@ def tags_of(key):
 def run(r, scale=1.0):
     rng = r.rng
     quick = r.tier == "quick"
-    n_stats, n_x2, n_x3 = (130, 44, 14) if quick else (1500, 500, 160)
+    n_stats, n_x2, n_x3 = (110, 38, 12) if quick else (1000, 330, 110)
     n_stats, n_x2, n_x3 = int(n_stats * scale), int(n_x2 * scale), int(n_x3 * scale)
     r.rule = ("rasters 1x1..5x6 as in C02 / C04 (every requested table has at least one existing zone); zones and values "
               "chunked independently by random compositions of the two axes (3-D: also the layer axis), 25% equal "
